@@ -60,7 +60,7 @@ class NoChoice(Ctx):
     """A context that always takes the default (for scenarios run without exploration)."""
 
 
-def explore(scenario, bound, on_exec=None, max_execs=None):
+def explore(scenario, bound, on_exec=None, max_execs=None, root=()):
     """Iterative deviation bounding (CHESS-style, 'deviation' in place of 'preemption').
 
     Runs `scenario` with every choice vector that departs from the defaults in at most
@@ -72,7 +72,8 @@ def explore(scenario, bound, on_exec=None, max_execs=None):
     stats = {"execs": 0, "outcomes": {}, "capped": False, "max_points": 0, "bound": bound}
 
     # explicit stack instead of recursion: (prefix, recorded points for the prefix, deviations so far)
-    stack = [([], [], 0)]
+    # `root` forces a prefix of choices (used to shard one exploration over several workers by first choice)
+    stack = [(list(root), None if root else [], None if root else 0)]
     while stack:
         prefix, expect, devs = stack.pop()
         if max_execs is not None and stats["execs"] >= max_execs:
@@ -90,6 +91,8 @@ def explore(scenario, bound, on_exec=None, max_execs=None):
             stats["max_points"] = len(ctx.points)
         if on_exec is not None:
             on_exec(ctx, outcome)
+        if devs is None:  # root prefix: count its deviations from the defaults met on the way
+            devs = sum(1 for (l, n, d), c in zip(ctx.points[: len(prefix)], ctx.choices[: len(prefix)]) if c != d)
         if devs >= bound:
             continue
         rec = [(l, n) for (l, n, d) in ctx.points]
